@@ -501,6 +501,12 @@ class FileUploadHandler(UploadHandler):
         """
         try:
             file_path.relative_to(self.upload_dir)
-            return True
         except ValueError:
+            return False
+        # The path must be fully resolved. Path.resolve() can hand back a path
+        # that still contains symlinks (when a link target passes through the
+        # link itself), and those could lead anywhere.
+        try:
+            return Path(os.path.realpath(file_path)) == file_path
+        except (OSError, ValueError):
             return False
